@@ -297,6 +297,11 @@ func parseRelation(
 
 	// Check if we have either no direct assignment, or we had exactly 1 direct assignment in the first position
 	if validator.occurrences() == 0 || (validator.occurrences() == 1 && validator.isFirstPosition(relationDefinition)) {
+		// the DSL cannot write a direct assignment without type restrictions ('[]' is rejected by its parser)
+		if validator.occurrences() == 1 && len(typeRestrictions) == 0 {
+			return "", errors.DirectAssignmentWithoutTypeRestrictionsError(typeName, relationName)
+		}
+
 		return fmt.Sprintf(`    define %v: %v%s`, relationName, parsedRelationString, sourceString), nil
 	}
 
